@@ -322,7 +322,7 @@ class FilesInfoRead(Contract):
     target = "py7zr.archiveinfo:FilesInfo._read"
     props = ("C06", "C05", "C08")
     abstract = True
-    opaque = ("archiveinfo:read_uint64", "archiveinfo:remaining_size", "archiveinfo:read_boolean", "archiveinfo:FilesInfo._read_name", "archiveinfo:FilesInfo._read_times", "archiveinfo:FilesInfo._read_attributes", "archiveinfo:FilesInfo._read_start_pos")
+    opaque = ("archiveinfo:read_uint64", "archiveinfo:remaining_size", "archiveinfo:read_boolean", "archiveinfo:FilesInfo._read_name", "archiveinfo:FilesInfo._read_times", "archiveinfo:FilesInfo._read_attributes", "archiveinfo:FilesInfo._read_start_pos", "archiveinfo:FilesInfo._mark_directories")
     pure = ("map", "list", "count")
     noraise = ("BytesIO", "map", "list", "count", "tell")
     frame_preserving = ("BytesIO", "map", "list", "count", "tell", "seek", "read", "read_uint64", "read_boolean", "remaining_size")
@@ -398,6 +398,9 @@ class FilesInfoRead(Contract):
         # of the header before anything else happens, and the walk goes on only when it fits
         first = bool(nums and rems and rems[0].args and rems[0].args[0] is b["fp"] and tr.index(rems[0]) == tr.index(nums[0]) + 1)
         out = [("walk-ends-only-at-the-end-marker", True), ("member-count-checked-before-anything-is-allocated", first, ("C05",))]
+        # C06 (FX30): the kind of the members without data is settled once, after every property record has been read
+        marks = [e for e in tr if e.kind in ("call", "contract-call") and str(e.name).endswith("_mark_directories")]
+        out.append(("member-kinds-settled-once-after-the-walk", bool(len(marks) == 1 and tr.index(marks[0]) == max(i for i, e in enumerate(tr) if e.kind in ("call", "contract-call"))), ("C06",)))
         if first:
             gt = V.uf("cmp_Gt", V.vsort(), V.vsort(), z3.BoolSort())
             out.append(("member-count-fits-the-remaining-header", Not(V.SBool(gt(V.box(nums[0].result).t, V.box(rems[0].result).t))), ("C05",)))
